@@ -314,6 +314,7 @@ DRIVER_PRELUDE = r'''
 #include <stdlib.h>
 #include <string.h>
 #include <setjmp.h>
+#include <sys/resource.h>
 #include "%(header)s"
 
 static jmp_buf vf_jb;
@@ -608,6 +609,14 @@ int main(void) {
             int k; unsigned s;
             sscanf(line + 2, "%%d %%u", &k, &s);
             vf_slot(k, s);
+        } else if (c == 'L') {
+            /* address-space limit: what the process has mapped now plus <pages> wasm pages (a host with little memory) */
+            unsigned long pages = strtoul(line + 2, NULL, 10), cur = 0; FILE* sf = fopen("/proc/self/statm", "r");
+            struct rlimit rl;
+            if (sf) { if (fscanf(sf, "%%lu", &cur) != 1) cur = 0; fclose(sf); }
+            rl.rlim_cur = rl.rlim_max = (rlim_t)cur * 4096u + (rlim_t)pages * 65536u;
+            setrlimit(RLIMIT_AS, &rl);
+            printf("L ok\n");
         } else if (c == 'F') {
             int k = atoi(line + 2);
             %(mod)sFreeInstance(&vf_inst[k]);
